@@ -34,6 +34,7 @@ type c06Resp struct {
 	FailAt   int   // >= 0: Read fails after this many bytes
 	UnknownL bool  // ContentLength -1
 	Location string
+	HeadLen  int // > 0 (HEAD requests only): the response announces this Content-Length but, as for every HEAD, carries no body
 }
 
 type c06Exchange struct {
@@ -176,6 +177,9 @@ func (t *c06Transport) RoundTrip(req *http.Request) (*http.Response, error) {
 	cl := int64(len(r.Body))
 	if r.UnknownL {
 		cl = -1
+	}
+	if r.HeadLen > 0 {
+		cl = int64(r.HeadLen)
 	}
 	return &http.Response{
 		Status: fmt.Sprintf("%d %s", r.Status, c06Reason(r.Status)), StatusCode: r.Status, Proto: "HTTP/1.1", ProtoMajor: 1, ProtoMinor: 1,
@@ -468,6 +472,11 @@ func c06Gen(t *rapid.T) c06Case {
 			}
 		}
 		ex.Final = c06GenResp(t, l+".final", false)
+		if ex.Method == "HEAD" && rapid.Bool().Draw(t, l+".headlike") {
+			// what real transports hand out for HEAD: the Content-Length of the entity, an empty body
+			ex.Final.Body, ex.Final.UnknownL = []byte{}, false
+			ex.Final.HeadLen = rapid.SampledFrom([]int{1, 10, 1234, 100000}).Draw(t, l+".headlen")
+		}
 		switch rapid.IntRange(0, 7).Draw(t, l+".fault") {
 		case 0:
 			ex.TransportEr = true
